@@ -26,3 +26,8 @@ chk("C08", "engine-H", "model_checking",
     "All reachable states (workspace ids x cache-file content x in-memory cache keys x read flag) of a closed universe of 3 (quick) / 4 (thorough) state points under init/remove/re-key/update_cache/restart/delete-cache/query/open-by-id are explored to a fixpoint on the real Project API; in every state a battery (len, iteration, 6 filters, open-by-id, cached_statepoint, membership) must answer identically with and without the cache file and equal the model; every update_cache transition must leave an exact file and make a second call a no-op.",
     "Trusted: the state abstraction (cache values are determined by their id), the model (a set of initialised indices). Job documents and retained job handles are outside this universe.",
     "explicit-state model checking of the implementation to closure (BFS with state hashing), model in lock step", "DESIGN.md section 6 C08")
+ENGINES[0]["serves_properties"] = ["C01", "C06", "C07", "C09", "C18"]
+chk("C07", "engine-I", "exploration",
+    "On 15 on-disk corpora every rewrite-closure spelling (namespace none/sp./{'sp':..}; dotted/nested/mixed key; operator nested/suffix; mapping, sequence of pairs, find_jobs string, command-line tokens via parse_filter_arg+_find_job_ids and, in thorough, via signac.__main__.main()) of every atom and of a depth-2 set must select the reference id set; for 34 filters per corpus len/iteration/every index/every slice/membership of every universe job (initialised or not) must describe one id set; groupby over 16 key specs x 3 defaults x 4 selections must be a disjoint exact partition whose labels equal each member's own values in key order.",
+    "Trusted: vlib/refmodels/query.py. Token spellings only for values whose text casts back; unsortable label corpora skipped and counted.",
+    "bounded-exhaustive enumeration of spellings / cursor operations / grouping keys against a reference model", "DESIGN.md section 6 C07")
